@@ -48,6 +48,7 @@ fn main() {
         _ => Tier::Quick,
     };
     let mut replay: Option<String> = None;
+    let mut record_abort: Option<String> = None;
     let mut i = 2;
     while i < args.len() {
         match args[i].as_str() {
@@ -62,6 +63,12 @@ fn main() {
             "--replay" => {
                 i += 1;
                 replay = Some(args.get(i).cloned().unwrap_or_else(|| usage()));
+            }
+            "--record-abort" => {
+                // Called by `check` after it attributed a death of the check process to one input:
+                // writes the evidence file and prints the verdict lines.
+                i += 1;
+                record_abort = Some(args.get(i).cloned().unwrap_or_else(|| usage()));
             }
             _ => usage(),
         }
@@ -87,6 +94,21 @@ fn main() {
     };
     install_panic_hook();
     let started = Instant::now();
+
+    if let Some(path) = record_abort {
+        let mut report = Report::new("attribution of a death of the check process: every case that was being evaluated when the process died is replayed alone in a fresh process; cases = those replays; non-trivial = the replay kills the process again");
+        let mut sub = SubResult { sub: "process-abort".into(), ..Default::default() };
+        sub.tally.evaluations = 1;
+        sub.tally.nontrivial(1);
+        sub.violations.push(Violation {
+            signature: format!("{}/process-abort", ctx.prop),
+            message: "the check process was killed while evaluating this input, and replaying it alone in a fresh process kills that process again (abort or signal, not a panic)".into(),
+            replay_path: path,
+        });
+        report.push(sub);
+        let code = finish(&ctx, report, started);
+        std::process::exit(code);
+    }
 
     if let Some(path) = replay {
         let raw = std::fs::read(&path).unwrap_or_else(|e| {
